@@ -85,8 +85,9 @@ REQUESTS = [
     [], [('a', 'A', True)], [('b', 'B', True)], [('a', 'A', True), ('b', 'B', True)],
     [('a1', 'A', True), ('a2', 'A', True)], [('c', 'C', False)], [('a', 'A', True), ('c', 'C', True)],
     [('a', 'A', True), ('d', 'D', True)],
+    [('a', 'A', True, 'shadowed')],      # the phase also carries with_args(a=...): the plug must win
 ]
-TEST_STARTS = [None, 'lambda', [], [('a', 'A', True)], [('c', 'C', True)]]
+TEST_STARTS = [None, 'lambda', [], [('a', 'A', True)], [('c', 'C', True)], [('a1', 'A', True), ('a2', 'A', True)]]
 
 
 def make_phase(name, req, behaviour, test_holder):
@@ -115,10 +116,16 @@ def make_phase(name, req, behaviour, test_holder):
   body.__name__ = name
   ph = h.PhaseOptions(name=name)(body)
   groups = {}
-  for arg, letter, upd in req:
+  shadow = {}
+  for item in req:
+    arg, letter, upd = item[:3]
     groups.setdefault(upd, {})[arg] = C[letter]
+    if len(item) > 3:
+      shadow[arg] = item[3]
   for upd, m in groups.items():
     ph = L['plugs'].plug(update_kwargs=upd, **m)(ph)
+  if shadow:
+    ph = ph.with_args(**shadow)
   return ph
 
 
@@ -187,8 +194,8 @@ def run_case(case):
 def expected_outcome(case):
   kind, arg = case['fault']
   ts = TEST_STARTS[case['test_start']]
-  needed_ts = {l for _, l, _ in ts} if isinstance(ts, list) else set()
-  needed_all = {l for r in case['phases'] for _, l, _ in REQUESTS[r]}
+  needed_ts = {it[1] for it in ts} if isinstance(ts, list) else set()
+  needed_all = {it[1] for r in case['phases'] for it in REQUESTS[r]}
   if kind == 'ctor':
     if arg in needed_ts or arg in needed_all:
       return 'ERROR'
@@ -234,7 +241,7 @@ def check(case, out):
     reqs['test_start'] = ts
   for e in log:
     if e[0] == 'phase' and e[1] in reqs:
-      want = tuple(sorted((a, inits.get(l)) for a, l, upd in reqs[e[1]] if upd))
+      want = tuple(sorted((it[0], inits.get(it[1])) for it in reqs[e[1]] if it[2]))
       if e[2] != want:
         bad.append(('injection', 'phase %s received %r, expected %r' % (e[1], e[2], want)))
   # ordering: tearDowns after last phase / test diagnoser, before callbacks
@@ -260,7 +267,7 @@ def check(case, out):
   for i, e in enumerate(log):
     if e[0] == 'phase' and e[1] == 'test_start':
       alive = {x[1] for x in log[:i] if x[0] == 'init'}
-      need = {l for _, l, _ in ts} if isinstance(ts, list) else set()
+      need = {it[1] for it in ts} if isinstance(ts, list) else set()
       if alive != need:
         bad.append(('test_start-plugs', 'plugs %r exist while test_start runs, it needs %r' % (sorted(alive), sorted(need))))
   # constructor failure: ERROR and no later phase
